@@ -303,7 +303,17 @@ impl DoubleEndedIterator for OffsetsBase {
 
         // This is inefficient compared to forward iteration, but that's OK
         // because reverse iteration is not performance critical.
-        let index = self.len - 1;
+        //
+        // `self.len` counts the remaining elements, so the last remaining
+        // element is `self.len - 1` elements after the front position.
+        let mut front_index = 0;
+        let mut shape_product = 1;
+        for dim in (0..self.ndim()).rev() {
+            let pos = self.pos(dim);
+            front_index += pos.index() * shape_product;
+            shape_product *= pos.size();
+        }
+        let index = front_index + self.len - 1;
         let offset = self.offset_from_linear_index(index);
         self.len -= 1;
 
